@@ -39,6 +39,18 @@ CHECKS = {
             "Generated textbook-grammar expressions with a distinct decimal literal at every operand position x 8 languages x 2 styles x 3 verbosities, plus an enumerated sweep of all 48 configurations over fixed shapes; each literal must occur in get_spoken_text at least as often as in the expression (as a maximal digit/mark run, written with the session's decimal mark); the overview may omit but not alter numbers.",
             "Only numbers are asserted (identifier wording is language specific). Decimal literals are never turned into words by the rules. Known rule-file and post-processing losses are keyed by structural class x language.",
             "DESIGN.md 3/C04"),
+    "C05": ("property-based testing with table-stratified character generators; invariant on the output alphabet of speech, overview and navigation speech",
+            "Generated expressions whose token characters come from the language's short table, its full-only table, no table at all, and plain tokens x every language x style x verbosity x capital-letter/override/impairment/overview preferences (TTS none); get_spoken_text, get_overview_text and navigation speech must contain no private-use marker, no raw invisible operator, no [[ ]] and no markup, and be non-empty when the expression has letters or digits.",
+            "Private-use characters, [[ ]] and tag-shaped text are not planted (unknown characters and mtext are echoed by design).",
+            "DESIGN.md 3/C05"),
+    "C06": ("metamorphic property-based testing: planted literals must re-occur as runs of the published digit cells (decimal mark calibrated in-session)",
+            "Generated textbook expressions with distinct integer/decimal literals at every operand position x braille code x code preferences; text codes must contain the literal verbatim, cell codes a contiguous run of the published digit cells (Nemeth lower cells, upper cells elsewhere, lowered cells where a code drops digits) with the decimal-mark cells calibrated by brailling 12.34 alone in the same session.",
+            "Digit cells are hard-coded from the published codes, not read from the rule files. Known rule-file losses are keyed by code x structural class.",
+            "DESIGN.md 3/C06"),
+    "C07": ("property-based testing with generators restricted to the characters and elements each code covers; invariant on the output alphabet of braille",
+            "Generated expressions over the keys of the selected code's unicode tables (plus ASCII alphanumerics, typeface variants, capitals, Greek, chemistry, tables, text) x every braille code x highlight style x code preferences, brailled with no id / an id of the expression / a foreign id and through get_navigation_braille; cell codes must consist of U+2800-28FF only and carry no dots 7-8 unless a node of the expression is highlighted; text codes must be free of private-use characters, internal indicator letters and control characters; non-empty when the expression has letters or digits.",
+            "U+28CD is accepted as the documented table row separator. Characters outside the code's tables are not generated (passed through by design); merror is excluded (no braille rule).",
+            "DESIGN.md 3/C07"),
 }
 
 NOT_YET = "check not built yet in this round (machinery in progress; see DESIGN.md section 7 build order)"
